@@ -209,10 +209,16 @@ impl Check for C07 {
             let da = format!("{}/{}", root, shard_dir_name(a));
             let p = plant_population(&mut fs, tape, &da, n, "k");
             pops.push((da, p));
-            let n2 = tape.draw(9) as usize;
-            let dob = format!("{}/{}", root, shard_dir_name(o_eff));
-            let p2 = plant_population(&mut fs, tape, &dob, n2, "o");
-            pops.push((dob, p2));
+            let _ = o_eff;
+            for o in 0..nshards {
+                if o == a {
+                    continue;
+                }
+                let n2 = tape.draw(9) as usize;
+                let dob = format!("{}/{}", root, shard_dir_name(o));
+                let p2 = plant_population(&mut fs, tape, &dob, n2, &format!("o{}x", o));
+                pops.push((dob, p2));
+            }
             dirs = vec![DirSpec { path: root.clone(), kind: DirKind::Sharded(nshards), capacity: cap * nshards }];
         } else {
             key = KeySpec { name: "newkey".into(), hash: 1, sec: 2 };
@@ -313,12 +319,15 @@ impl Check for C07 {
             }
             // every population directory must have been maintained when the
             // entry point is a maintaining write
-            if entry != Entry07::Prune || true {
-                for (d, _) in pops.iter() {
-                    if !inv.episodes.iter().any(|e| e.dir == *d) {
-                        out.violation = Some(Violation::new("no-maintenance", format!("directory {} was not maintained", d)));
-                    }
+            // the directory written to must have been maintained; a sharded
+            // write additionally maintains one other shard of its choosing
+            if let Some((d, _)) = pops.first() {
+                if !inv.episodes.iter().any(|e| e.dir == *d) {
+                    out.violation = Some(Violation::new("no-maintenance", format!("directory {} was not maintained", d)));
                 }
+            }
+            if sharded && pops.len() > 1 && !pops[1..].iter().any(|(d, _)| inv.episodes.iter().any(|e| e.dir == *d)) {
+                out.violation = Some(Violation::new("no-maintenance", "a maintaining sharded write did not maintain any other shard".to_string()));
             }
         }
         // signature
